@@ -6,6 +6,7 @@ package bpmn
 import (
 	"context"
 	"sync"
+	"time"
 
 	"github.com/olive-io/bpmn/schema"
 	"github.com/olive-io/bpmn/v2/pkg/id"
@@ -39,14 +40,29 @@ func (g *verifIdGen) New() id.Id {
 // Symbolic runs use this synchronous broadcaster (Send = atomic append to every subscriber queue and a
 // call of the hook); its contract is what C09 establishes for the real tracer.  Native replays use the
 // real tracer with a subscriber goroutine feeding the same hook.
-type verifSender struct{}
+type verifSender struct{ t *verifTracer }
 
-func (verifSender) Done() {}
+func (s verifSender) Done() { s.t.senders-- }
 
 type verifTracer struct {
-	subs []chan tracing.ITrace
-	hook func(tracing.ITrace)
-	done chan struct{}
+	subs    []chan tracing.ITrace
+	hook    func(tracing.ITrace)
+	done    chan struct{}
+	senders int64 // handles registered and not yet released (the real tracer terminates only when this is 0)
+}
+
+// sendersReleased: every sender handle registered with the instance's inner tracer has been released.  Symbolically the
+// stub's balance; natively the real tracer's observable consequence (it terminates after cancellation iff the balance is 0).
+func (inst *verifInst) sendersReleased() bool {
+	if t, ok := inst.proc.subTracer.(*verifTracer); ok {
+		return t.senders == 0
+	}
+	select {
+	case <-inst.proc.subTracer.Done():
+		return true
+	case <-time.After(2 * time.Second):
+		return false
+	}
 }
 
 func (t *verifTracer) Subscribe() chan tracing.ITrace {
@@ -74,8 +90,11 @@ func (t *verifTracer) Send(tr tracing.ITrace) {
 		verifPushTrace(s, tr)
 	}
 }
-func (t *verifTracer) RegisterSender() tracing.ISenderHandle { return verifSender{} }
-func (t *verifTracer) Done() chan struct{}                   { return t.done }
+func (t *verifTracer) RegisterSender() tracing.ISenderHandle {
+	t.senders++
+	return verifSender{t: t}
+}
+func (t *verifTracer) Done() chan struct{} { return t.done }
 
 // verifPushTrace: invisible (non-scheduling) append to a subscriber queue; natively a plain send.
 func verifPushTrace(ch chan tracing.ITrace, tr tracing.ITrace) { ch <- tr }
